@@ -512,6 +512,13 @@ func (t *Trans) applyContract(fr *Frame, c *Contract, cname string, sig *types.S
 	if len(c.Extra["allocates"]) > 0 {
 		w["alloc"] = "Int"
 	}
+	// "extra unchanged (comp ...)": the callee proves these components equal to their entry value as whole arrays
+	// (obligation frame.unchanged.<comp> in its own verification), so they are not havocked here
+	for _, x := range c.Extra["unchanged"] {
+		for _, a := range sxAtoms(x) {
+			delete(w, a)
+		}
+	}
 	t.havocComps(fr, w, c, sc)
 	// results
 	res := t.freshResults(fr, sig, cname)
